@@ -11,6 +11,7 @@ ASSUMPTIONS = [
     'client alphabet: Study.suggest / trials / optimal_trials / get_trial / add_trial / request / update_metadata / set_state / materialize_* / delete / from_resource_name and Trial.complete / add_measurement / stop / check_early_stopping / delete / update_metadata / materialize, with existing and missing ids, in- and out-of-space trials',
     'timestamps and error messages are not compared; an RPC error is compared by its status code, any other exception by its class',
     'loopback gRPC on localhost inside the sandbox',
+    'in-flight scenarios: one suggest is held inside the algorithm by a gate in the scripted policy (the same forced preemption point in every deployment) while other client calls are issued; at most one of them may wait for the operation lock',
 ]
 
 OPS = [
@@ -25,6 +26,24 @@ OPS = [
 ]
 READ_ONLY = ('get_trial', 'materialize_trial', 'trial_parameters', 'trials', 'optimal_trials', 'materialize_state', 'materialize_problem', 'materialize_study_config', 'from_resource_name')
 _DEPS = {}
+
+
+class CountingLock:
+  """threading.Lock that counts its waiters, so that the harness can tell when a call is parked on it."""
+
+  def __init__(self):
+    import threading
+    self._l = threading.Lock()
+    self.waiters = 0
+
+  def __enter__(self):
+    self.waiters += 1
+    self._l.acquire()
+    self.waiters -= 1
+    return self
+
+  def __exit__(self, *a):
+    self._l.release()
 
 
 class Deployment:
@@ -47,6 +66,8 @@ class Deployment:
       self.servicer = self.server._servicer
       self.service = self.server.stub
       self.endpoint = self.server.endpoint
+    import collections
+    self.servicer._operation_lock = collections.defaultdict(CountingLock)
 
   @property
   def name(self):
@@ -190,6 +211,89 @@ def run_op(dep, op):
     return ('exc', _exc_class(e))
 
 
+BLOCKING = ('suggest', 'check_early_stopping', 'delete_study')   # client calls that wait for the per-study operation lock
+
+
+def run_gated(dep, prefix, during):
+  """While worker A's suggest is held inside the algorithm, run `during` (at most its first op may wait for
+  the operation lock; it is left pending), release, join, observe. Returns (observations, stored state)."""
+  import threading
+  from vfw import svc
+  from vizier._src.service import study_pb2
+  dep.reset()
+  dep.env.__init__()
+  dep.servicer.CreateStudy(svc.vs.CreateStudyRequest(parent=svc.OWNER, study=study_pb2.Study(display_name='s', study_spec=svc.spec())))
+  obs = [run_op(dep, tuple(op)) for op in prefix]
+  gate, entered = threading.Event(), threading.Event()
+  dep.env.gate, dep.env.entered = gate, entered
+  res = {}
+
+  def worker(key, op):
+    res[key] = run_op(dep, op)
+  ta = threading.Thread(target=worker, args=('A', ('suggest', 1, 'held')), daemon=True)
+  ta.start()
+  if not entered.wait(timeout=10):
+    gate.set()
+    ta.join(10)
+    return obs + [('exc', 'GATE-NOT-REACHED')], None
+  pending = []
+  for i, op in enumerate(during):
+    if op[0] in BLOCKING:
+      t = threading.Thread(target=worker, args=(i, tuple(op)), daemon=True)
+      t.start()
+      # wait until the call is parked on the operation lock (or has returned without needing it)
+      import time
+      lock = dep.servicer._operation_lock[svc.study_name('s')]
+      t0 = time.time()
+      while t.is_alive() and lock.waiters == 0 and time.time() - t0 < 10:
+        time.sleep(0.002)
+      pending.append((i, t))
+    else:
+      res[i] = run_op(dep, tuple(op))
+  gate.set()
+  ta.join(10)
+  for i, t in pending:
+    t.join(10)
+    if t.is_alive():
+      res[i] = ('exc', 'HANG')
+  if ta.is_alive():
+    res['A'] = ('exc', 'HANG')
+  obs += [res.get('A')] + [res.get(i) for i in range(len(during))]
+  state = svc.canon_state(dep.servicer.datastore, ('s',), ('a', 'b', 'held', 'unused'), 6, svc.CLOCK.now, 10 ** 9)
+  return obs, state
+
+
+def gated_shard(task):
+  from vfw import svc
+  svc.install_clock()
+  deps = deployments([tuple(d) for d in task['deployments']])
+  vios, n = {}, 0
+  outcomes = set()
+  for prefix, during in task['programs']:
+    n += 1
+    results = [run_gated(d, prefix, during) for d in deps]
+    o0, s0 = results[0]
+    outcomes.add(repr(o0)[:200])
+    for d, (o, s_) in zip(deps[1:], results[1:]):
+      if o != o0:
+        idx = [i for i, (x, y) in enumerate(zip(o0, o)) if x != y]
+        which = (['A'] + [tuple(op)[0] for op in during])[idx[0] - len(prefix)] if idx and idx[0] >= len(prefix) else 'prefix'
+        sig = 'C08|in-flight:outcome-differs|%s|%s-vs-%s' % (which, deps[0].mode, d.mode)
+        vios.setdefault(sig, {'sig': sig, 'desc': 'prefix %s, while a suggest is in flight: %s -> %s gives %s, %s gives %s' % (
+            list(prefix), list(during), deps[0].name, str(o0)[:300], d.name, str(o)[:300]), 'case': {'gated': True, 'prefix': list(prefix), 'during': list(during)}})
+      elif s_ != s0:
+        d0, d1 = dict(s0 or ()), dict(s_ or ())
+        part = [k for k in d0 if d0[k] != d1.get(k)]
+        sig = 'C08|in-flight:stored-state-differs|%s|%s-vs-%s' % ('+'.join(tuple(op)[0] for op in during), deps[0].mode if d.db == deps[0].db else deps[0].name, d.mode if d.db == deps[0].db else d.name)
+        vios.setdefault(sig, {'sig': sig, 'desc': 'prefix %s, while a suggest is in flight: %s: stored %s differ between %s and %s' % (list(prefix), list(during), part, deps[0].name, d.name),
+                              'case': {'gated': True, 'prefix': list(prefix), 'during': list(during)}})
+    for d, (o, s_) in zip(deps, results):
+      if any(x is not None and x[0] == 'exc' and x[1] in ('HANG', 'GATE-NOT-REACHED') for x in o):
+        sig = 'C08|in-flight:hang|%s' % d.mode
+        vios.setdefault(sig, {'sig': sig, 'desc': '[%s] prefix %s during %s: %s' % (d.name, list(prefix), list(during), o), 'case': {'gated': True, 'prefix': list(prefix), 'during': list(during)}})
+  return {'n': n, 'violations': list(vios.values()), 'outcomes': len(outcomes)}
+
+
 def run_program(dep, prog):
   from vfw import svc
   from vizier._src.service import study_pb2
@@ -271,6 +375,28 @@ def run(ctx):
   class _Ctx:
     pass
   cov = _run_search(ctx, s, cfg, depth)
+  # programs with a suggest in flight (held inside the algorithm): every single client call, and every pair
+  # (call that waits for the operation lock, call that does not) issued meanwhile
+  nonblocking = [op for op in OPS if op[0] not in BLOCKING]
+  blocking = [op for op in OPS if op[0] in BLOCKING]
+  progs = []
+  for prefix in ([], [('suggest', 1, 'a')]):
+    for op in OPS:
+      progs.append((prefix, [op]))
+    for b in blocking:
+      for x in (nonblocking if not ctx.quick else [o for o in nonblocking if o[0] in ('set_state', 'delete_trial', 'complete', 'update_metadata', 'add_trial', 'stop')]):
+        progs.append((prefix, [b, x]))
+  chunks = [progs[i::16] for i in range(16)]
+  gd = deps if not ctx.quick else deps[:4]
+  tot = outs = 0
+  for r in ctx.pmap('gated_shard', [{'deployments': gd, 'programs': ch} for ch in chunks if ch]):
+    tot += r['n']
+    outs += r['outcomes']
+    ctx.extend(r['violations'])
+  cov['in_flight_programs'] = tot
+  cov['in_flight_distinct_outcomes'] = outs
+  cov['transitions'] += tot
+  cov['traces_validated_against_impl'] += tot
   return cov
 
 
@@ -298,6 +424,9 @@ def _run_search(ctx, s, cfg, depth):
 
 def replay(case, ctx):
   from props import c01
+  if case.get('gated'):
+    return gated_shard({'deployments': [('local', 'ram'), ('grpc', 'ram'), ('pythia', 'ram'), ('local', 'sql')],
+                        'programs': [([tuple(o) for o in case['prefix']], [tuple(o) for o in case['during']])]})['violations']
   task = {'deployments': case['cfg']['deployments'], 'ops': [c01._t(case['action'])], 'paths': [(tuple(c01._t(a) for a in case['path']), None)]}
   r = expand(task)
   return [v for res in r for (_, _, vios, _) in res['succ'] for v in vios]
